@@ -187,6 +187,31 @@ DEFAULT_OPTS = [('warning_level', ['0', '1', '2', '3']), ('buildtype', ['debug',
                 ('cpp_std', None), ('werror', ['true', 'false']), ('default_library', ['shared', 'static', 'both']),
                 ('optimization', ['0', '2', 's']), ('debug', ['true', 'false']), ('unity', ['on', 'off'])]
 
+# list-valued keyword arguments are built from pools with deliberate near-collisions: keys that are a suffix /
+# prefix of another key, keys embedded in values, subproject-qualified keys, duplicates, entries without `=`
+DEFOPT_POOL = ['debug=true', 'debug=false', 'b_ndebug=if-release', 'sub:debug=true', 'c_args=-Ddebug=1', 'prefix=/debug=x',
+               'warning_level=1', 'warning_level=3', 'sub:warning_level=2', 'unity=on', 'unity_size=4', 'sub:unity=off',
+               'c_args=-Dunity=1', 'c_std=c99', 'objc_std=c11', 'cpp_std=c++14', 'werror=true', 'prefix=/opt/werror=1',
+               'buildtype=release', 'default_library=static', 'optimization=2']
+DEFOPT_KEYS_SETTABLE = [('debug', ['true', 'false']), ('warning_level', ['0', '2', '3']), ('unity', ['on', 'off']),
+                        ('werror', ['true', 'false']), ('buildtype', ['debug', 'plain']), ('unity_size', ['8']),
+                        ('default_library', ['shared', 'both']), ('optimization', ['0', 's'])]
+DEFOPT_KEYS_DELETE_ONLY = ['c_std', 'std', 'ndebug', 'level', 'b_ndebug', 'prefix', 'c_args', 'sub:debug']
+LICENSE_POOL = ['MIT', 'MIT-0', 'X-MIT', 'GPL-2.0', 'LGPL-2.0', 'GPL-2.0-or-later', 'BSD', 'noequals', 'a=b']
+LICENSE_REGEX = ['MIT', 'GPL', '.*MIT', 'GPL-2\\.0$', 'X', 'L?GPL.*', 'MIT$', '[A-Z]+-0', 'BSD|MIT', '.*=']
+VERSION_POOL = ['>=1.0', '>=1.0.1', '<3', '!=1.5', '>=1', '<3.5']
+VERSION_REGEX = ['>=1', '>=1\\.0$', '.*1', '<3', '[<>]=?1.*', '!=']
+MODULE_POOL = ['core', 'core-extra', 'xcore', 'gui', 'gui2']
+MODULE_REGEX = ['core', 'core$', '.*core', 'gui.', 'x?core-.*']
+
+
+def near_collision_list(rng, pool: T.List[str], lo: int = 0, hi: int = 5) -> T.List[str]:
+    l = rng.sample(pool, min(len(pool), rng.randint(lo, hi)))
+    if l and rng.random() < 0.25:
+        l.insert(rng.randint(0, len(l)), rng.choice(l))     # a duplicate
+    return l
+
+
 TARGET_FUNCS = ['executable', 'library', 'static_library', 'shared_library']
 
 
@@ -237,19 +262,17 @@ def gen_project(rng, hazard: T.Optional[str] = None, ntargets: T.Optional[int] =
         pk.append("version: '%s'" % v)
         proj_meta['version'] = v
     if rng.random() < 0.6:
-        opts = rng.sample(DEFAULT_OPTS, rng.randint(0, 3))
-        ol = []
-        for k, ch in opts:
-            ol.append('%s=%s' % (k, rng.choice(ch) if ch else 'c++14'))
+        ol = near_collision_list(rng, DEFOPT_POOL)
         proj_meta['default_options'] = ol
         if len(ol) == 1 and rng.random() < 0.3:
             pk.append("default_options: '%s'" % ol[0])
         else:
             pk.append('default_options: [' + ', '.join("'%s'" % o for o in ol) + ']')
     if rng.random() < 0.3:
-        lic = rng.sample(['MIT', 'GPL-2.0', 'BSD'], rng.randint(1, 2))
+        lic = near_collision_list(rng, LICENSE_POOL, 1, 4)
         proj_meta['license'] = lic
-        pk.append('license: [' + ', '.join("'%s'" % x for x in lic) + ']')
+        pk.append("license: '%s'" % lic[0] if len(lic) == 1 and rng.random() < 0.3
+                  else 'license: [' + ', '.join("'%s'" % x for x in lic) + ']')
     if rng.random() < 0.3:
         pk.append("meson_version: '>=0.50'")
         proj_meta['meson_version'] = '>=0.50'
@@ -275,10 +298,14 @@ def gen_project(rng, hazard: T.Optional[str] = None, ntargets: T.Optional[int] =
             kw.append('required: ' + ('true' if b else 'false'))
             dm['required'] = b
         if rng.random() < 0.5:
-            vs = rng.sample(['>=1.0', '<3', '!=1.5'], rng.randint(1, 2))
+            vs = near_collision_list(rng, VERSION_POOL, 1, 3)
             dm['version'] = vs
             kw.append('version: ' + ("'%s'" % vs[0] if len(vs) == 1 and rng.random() < 0.5
                                      else '[' + ', '.join("'%s'" % v for v in vs) + ']'))
+        if rng.random() < 0.35:
+            ms = near_collision_list(rng, MODULE_POOL, 1, 3)
+            dm['modules'] = ms
+            kw.append('modules: [' + ', '.join("'%s'" % v for v in ms) + ']')
         if rng.random() < 0.4:
             kw.append('fallback: [' + eg.strx(min(depth, 1)) + ", 'dep']")
         if rng.random() < 0.3:
@@ -464,7 +491,7 @@ def gen_commands(rng, meta: T.Dict[str, T.Any], n: int) -> T.List[T.Dict[str, T.
             live = [x for x in live if x != t]
         elif r < 0.68 and live:
             cmds.append({'type': 'target', 'target': rng.choice(live), 'operation': 'info'})
-        elif r < 0.84 and live:
+        elif r < 0.78 and live:
             t = rng.choice(live)
             op = rng.choice(['set', 'set', 'delete', 'add', 'remove'])
             kw: T.Dict[str, T.Any] = {}
@@ -480,37 +507,69 @@ def gen_commands(rng, meta: T.Dict[str, T.Any], n: int) -> T.List[T.Dict[str, T.
                     pool_ids = ['some_id']
                 kw[k] = rng.sample(pool_ids, 1) if rng.random() < 0.7 else rng.choice(pool_ids)
             cmds.append({'type': 'kwargs', 'function': 'target', 'id': t, 'operation': op, 'kwargs': kw})
-        elif r < 0.90:
-            op = rng.choice(['set', 'delete', 'add', 'remove'])
+        elif r < 0.87:
+            op = rng.choice(['set', 'delete', 'add', 'remove', 'remove', 'remove_regex', 'remove_regex'])
             kw = {}
             if op in ('set', 'delete'):
-                k = rng.choice(PROJ_KW_STR + PROJ_KW_STRLIST)
-                kw[k] = rng.choice(['1.2.3', '>=0.55']) if k in PROJ_KW_STR else rng.sample(['MIT', 'Apache-2.0', 'X11'], rng.randint(1, 2))
+                k = rng.choice(PROJ_KW_STR + PROJ_KW_STRLIST + ['default_options'])
+                if k in PROJ_KW_STR:
+                    kw[k] = rng.choice(['1.2.3', '>=0.55'])
+                elif k == 'default_options':
+                    kw[k] = near_collision_list(rng, DEFOPT_POOL, 1, 3)
+                else:
+                    kw[k] = rng.sample(LICENSE_POOL, rng.randint(1, 2))
                 if op == 'delete':
                     kw = {k: None}
             else:
-                k = rng.choice(PROJ_KW_STRLIST)
-                kw[k] = rng.sample(['MIT', 'Apache-2.0', 'GPL-2.0'], 1)
+                k = rng.choice(PROJ_KW_STRLIST + ['default_options', 'license'])
+                if k == 'default_options':
+                    have = meta['project'].get('default_options') or DEFOPT_POOL
+                    if op == 'remove_regex':
+                        key = rng.choice(DEFOPT_KEYS_SETTABLE)[0] if rng.random() < 0.6 else rng.choice(DEFOPT_KEYS_DELETE_ONLY)
+                        kw[k] = [rng.choice([key + '=.*', key + '=', '.*' + key + '=.*', key, 'sub:.*', '.*=true$'])]
+                    else:
+                        kw[k] = [rng.choice(have)] if rng.random() < 0.7 else rng.sample(DEFOPT_POOL, 1)
+                else:
+                    have = meta['project'].get('license') or LICENSE_POOL
+                    if op == 'remove_regex':
+                        kw[k] = rng.sample(LICENSE_REGEX, rng.randint(1, 2))
+                    else:
+                        kw[k] = [rng.choice(have)] if rng.random() < 0.7 else rng.sample(LICENSE_POOL, rng.randint(1, 2))
+                    if len(kw[k]) == 1 and rng.random() < 0.3:
+                        kw[k] = kw[k][0]
             cmds.append({'type': 'kwargs', 'function': 'project', 'id': '/', 'operation': op, 'kwargs': kw})
-        elif r < 0.94 and meta['deps']:
+        elif r < 0.91 and meta['deps']:
             dname = rng.choice(sorted(meta['deps']))
-            op = rng.choice(['set', 'delete', 'add', 'remove'])
+            op = rng.choice(['set', 'delete', 'add', 'remove', 'remove_regex'])
             kw = {}
             if op in ('set', 'delete'):
-                k = rng.choice(DEP_KW_BOOL + DEP_KW_STR)
-                kw[k] = (rng.random() < 0.5) if k in DEP_KW_BOOL else rng.choice(['c', 'auto', 'not here'])
+                k = rng.choice(DEP_KW_BOOL + DEP_KW_STR + DEP_KW_STRLIST)
+                if k in DEP_KW_BOOL:
+                    kw[k] = rng.random() < 0.5
+                elif k in DEP_KW_STR:
+                    kw[k] = rng.choice(['c', 'auto', 'not here'])
+                else:
+                    kw[k] = near_collision_list(rng, VERSION_POOL if k == 'version' else MODULE_POOL, 1, 2)
                 if op == 'delete':
                     kw = {k: None}
             else:
-                kw['version'] = rng.sample(['>=1.0', '<3', '>2'], 1)
+                k = rng.choice(DEP_KW_STRLIST)
+                pool, rx = (VERSION_POOL, VERSION_REGEX) if k == 'version' else (MODULE_POOL, MODULE_REGEX)
+                have = meta['deps'][dname].get(k) or pool
+                if op == 'remove_regex':
+                    kw[k] = rng.sample(rx, rng.randint(1, 2))
+                else:
+                    kw[k] = [rng.choice(have)] if rng.random() < 0.7 else rng.sample(pool, rng.randint(1, 2))
             cmds.append({'type': 'kwargs', 'function': 'dependency', 'id': rng.choice([dname, meta['deps'][dname]['name']]),
                          'operation': op, 'kwargs': kw})
         else:
             op = rng.choice(['set', 'delete'])
             opts = {}
-            for k, ch in rng.sample(DEFAULT_OPTS, rng.randint(1, 2)):
-                opts[k] = rng.choice(ch) if ch else 'c++17'
-            if op == 'delete':
-                opts = {k: None for k in opts}
+            if op == 'set':
+                for k, ch in rng.sample(DEFOPT_KEYS_SETTABLE, rng.randint(1, 2)):
+                    opts[k] = rng.choice(ch)
+            else:
+                for k in rng.sample([k for k, _c in DEFOPT_KEYS_SETTABLE] + DEFOPT_KEYS_DELETE_ONLY, rng.randint(1, 2)):
+                    opts[k] = None
             cmds.append({'type': 'default_options', 'operation': op, 'options': opts})
     return cmds
